@@ -15,6 +15,12 @@
      GENALL                 MIR_gen on every function item in module order
      INTERP <id> <func> <n>
      CALL <id> <func> <n>
+     MODBEGIN <module> <callee>...   MIR_new_module + import of every callee + proto p_ii: from here to
+                                     MODEND a module is UNDER CONSTRUCTION while other actions run
+     MODFUNC <g> <callee>            whole function  g (p, n) = callee (p, n) + 1000  and its export
+     MODFUNCBEGIN <g> <callee>       MIR_new_func, regs and the call insn ...
+     MODFUNCEND                      ... the remaining insns, MIR_finish_func, export
+     MODEND                          MIR_finish_module; prints "MT <module> <escaped text of the module>"
    generated test functions have the signature  i64 f (i64 p, i64 n);  p points to 64 i64 cells.  */
 #include <stdio.h>
 #include <stdlib.h>
@@ -139,6 +145,56 @@ static void do_gen (MIR_context_t ctx, MIR_item_t it) {
           func->call_addr == ca0, first_same, func->machine_code != NULL);
 }
 
+/* a module built through the API in several steps */
+static MIR_module_t open_mod;
+static MIR_item_t open_proto, open_func;
+static char open_func_name[64];
+static struct {
+  char name[64];
+  MIR_item_t item;
+} open_imports[8];
+static int n_open_imports;
+
+static void modfunc_begin (MIR_context_t ctx, const char *gname, const char *callee) {
+  MIR_type_t res = MIR_T_I64;
+  MIR_var_t args[2];
+  MIR_item_t imp = NULL;
+  memset (args, 0, sizeof (args));
+  args[0].type = MIR_T_I64;
+  args[0].name = "p";
+  args[1].type = MIR_T_I64;
+  args[1].name = "n";
+  for (int i = 0; i < n_open_imports; i++)
+    if (strcmp (open_imports[i].name, callee) == 0) imp = open_imports[i].item;
+  if (imp == NULL) {
+    printf ("NOIMPORT %s\n", callee);
+    exit (5);
+  }
+  snprintf (open_func_name, sizeof (open_func_name), "%s", gname);
+  open_func = MIR_new_func_arr (ctx, gname, 1, &res, 2, args);
+  MIR_func_t f = open_func->u.func;
+  MIR_reg_t r = MIR_new_func_reg (ctx, f, MIR_T_I64, "r");
+  MIR_op_t ops[5];
+  ops[0] = MIR_new_ref_op (ctx, open_proto);
+  ops[1] = MIR_new_ref_op (ctx, imp);
+  ops[2] = MIR_new_reg_op (ctx, r);
+  ops[3] = MIR_new_reg_op (ctx, MIR_reg (ctx, "p", f));
+  ops[4] = MIR_new_reg_op (ctx, MIR_reg (ctx, "n", f));
+  MIR_append_insn (ctx, open_func, MIR_new_insn_arr (ctx, MIR_CALL, 5, ops));
+}
+
+static void modfunc_end (MIR_context_t ctx) {
+  MIR_func_t f = open_func->u.func;
+  MIR_reg_t r = MIR_reg (ctx, "r", f);
+  MIR_op_t rop = MIR_new_reg_op (ctx, r);
+  MIR_append_insn (ctx, open_func,
+                   MIR_new_insn (ctx, MIR_ADD, rop, rop, MIR_new_int_op (ctx, 1000)));
+  MIR_append_insn (ctx, open_func, MIR_new_ret_insn (ctx, 1, rop));
+  MIR_finish_func (ctx);
+  MIR_new_export (ctx, open_func_name);
+  open_func = NULL;
+}
+
 static int64_t mem[64];
 static void init_mem (long id) {
   for (int i = 0; i < 64; i++) mem[i] = (id * 7919 + i * 31) & 0xffff;
@@ -252,6 +308,50 @@ int main (int argc, char **argv) {
       printf ("R %s %s %s %s %lld %016llx %lld\n", w[1], w[0][0] == 'I' ? "interp" : "call", w[2],
               w[3], (long long) res, (unsigned long long) fnv ((char *) mem, sizeof (mem)),
               (long long) acc);
+    } else if (strcmp (w[0], "MODBEGIN") == 0 && n >= 3) {
+      phase = "build-module";
+      MIR_type_t res = MIR_T_I64;
+      MIR_var_t args[2];
+      memset (args, 0, sizeof (args));
+      args[0].type = MIR_T_I64;
+      args[0].name = "p";
+      args[1].type = MIR_T_I64;
+      args[1].name = "n";
+      open_mod = MIR_new_module (ctx, w[1]);
+      n_open_imports = 0;
+      for (int i = 2; i < n; i++) {
+        snprintf (open_imports[n_open_imports].name, 64, "%s", w[i]);
+        open_imports[n_open_imports++].item = MIR_new_import (ctx, w[i]);
+      }
+      open_proto = MIR_new_proto_arr (ctx, "p_ii", 1, &res, 2, args);
+      phase = "run";
+    } else if (strcmp (w[0], "MODFUNC") == 0 && n == 3) {
+      phase = "build-module";
+      modfunc_begin (ctx, w[1], w[2]);
+      modfunc_end (ctx);
+      phase = "run";
+    } else if (strcmp (w[0], "MODFUNCBEGIN") == 0 && n == 3) {
+      phase = "build-module";
+      modfunc_begin (ctx, w[1], w[2]);
+      phase = "run";
+    } else if (strcmp (w[0], "MODFUNCEND") == 0) {
+      phase = "build-module";
+      modfunc_end (ctx);
+      phase = "run";
+    } else if (strcmp (w[0], "MODEND") == 0) {
+      phase = "build-module";
+      MIR_finish_module (ctx);
+      char *buf = NULL;
+      size_t len;
+      FILE *f = open_memstream (&buf, &len);
+      MIR_output_module (ctx, f, open_mod);
+      fclose (f);
+      printf ("MT %s ", open_mod->name);
+      out_escaped (buf);
+      printf ("\n");
+      free (buf);
+      open_mod = NULL;
+      phase = "run";
     } else {
       printf ("BADPLAN %s\n", w[0]);
     }
